@@ -2998,9 +2998,19 @@ coap_handle_request_put_block(coap_context_t *context,
   lg_srcv->last_mid = pdu->mid;
   lg_srcv->last_type = pdu->type;
 
+  saved_num = block.num;
+  if (block_option == COAP_OPTION_BLOCK1 && !block.bert &&
+      block.szx > lg_srcv->szx) {
+    /*
+     * The body is tracked in units of the (smaller) block size that was
+     * negotiated with the first block, so a block that still uses the
+     * larger size covers several of them.
+     */
+    block.num <<= block.szx - lg_srcv->szx;
+    block.szx = lg_srcv->szx;
+  }
   chunk = (size_t)1 << (block.szx + 4);
   update_data = 0;
-  saved_num = block.num;
   saved_offset = offset;
 
   while (offset < saved_offset + length) {
